@@ -439,6 +439,9 @@ def cbmc_cmd(spec, goto, unwindset, extra=()):
     cmd += [goto, "--verbosity", "8"]
     if "--trace" in extra:
         cmd += ["--json-ui"]
+        # the trace pass runs unsliced: slicing drops kani::any() results the property does not depend on,
+        # and the native replay consumes the recorded values strictly in drawing order
+        cmd = [c for c in cmd if c != "--slice-formula"]
     return cmd
 
 
